@@ -13,6 +13,7 @@ let () =
              | "sym" -> Driver_sym.run_case toks
              | "exp" -> Driver_exp.run_case toks
              | "spec" -> Driver_spec.run_case toks
+             | "reg" -> Driver_reg.run_case toks
              | "safe" -> Driver_safe.run_case toks
              | "dispatch" -> Driver_safe.run_dispatch toks
              | _ -> "error unknown-mode"
